@@ -40,7 +40,7 @@ def run(ck):
                "rvalue-reference, protected-type signatures, a private nested class with published members), free functions, globals, enums and macros in "
                "and out of __begin_publish regions, a command (.N) file with ignoremember / ignorefile / ignoretype x {default, -promiscuous}: for every declared entity, presence in the database against the Lean filter "
                "model on the ground-truth attributes; nothing from the -I/-S/beside files may appear at all; distinct = distinct (layout, option set)")
-    n = 12 if quick else 400
+    n = 20 if quick else 400
     done = 0
     tries = 0
     try:
